@@ -94,7 +94,8 @@ pub fn check(tier: Tier) -> Check {
         deciding: vec!["C08"],
         streams: vec![Stream::new("histories", tier.pick(64, 640), |ctx, idx| {
             history_scenario(ctx, idx, "C08", "histories", Focus::Table, 0)
-        })],
+        })
+        .budget(tier.pick(900.0, 3000.0), tier.pick(64, 320))],
         require: vec![
             ("table_operations", tier.pick(500_000, 50_000_000)),
             ("bucket_splits", tier.pick(2_000, 200_000)),
